@@ -19,32 +19,47 @@ PROPERTY = "C08"
 LEVEL = "exploration"
 SHARDS = {"quick": 8, "thorough": 16}
 BUDGET = {"quick": 25.0, "thorough": 420.0}
-REQUIRE = {
-    "histories": 200,
-    "ops_applied": 4000,
-    "clause:focus_valid_child": 20000,
-    "clause:empty_no_focus": 300,
-    "clause:contents_match_edits": 20000,
-    "clause:invalid_assign_rejected": 150,
-    "clause:valid_assign_taken": 150,
-    "clause:key_offer_on_path": 1500,
-    "clause:key_return_value": 1000,
-    "clause:key_handled_none": 60,
-    "clause:key_unmapped_unchanged": 100,
-    "clause:arrow_moved_selectable": 100,
-    "clause:selectable_after_mutation": 150,
-    "clause:render_focus_canvas": 1500,
-    "clause:render_focus_calls": 1500,
-    "clause:path_restored": 40,
-    "clause:path_api_agrees": 4000,
-    "clause:set_focus_path_valid": 40,
-    "clause:set_focus_path_invalid": 20,
-    "kind:pile": 2000,
-    "kind:cols": 2000,
-    "kind:grid": 1000,
-    "kind:frame": 1000,
-    "kind:overlay": 500,
-    "kind:list": 1000,
+REQUIRE = {  # about 1/10 of what one quick run observes on the unchanged tree
+    "histories": 300,
+    "ops_applied": 8000,
+    "clause:focus_valid_child": 40000,
+    "clause:empty_no_focus": 4000,
+    "clause:contents_match_edits": 40000,
+    "clause:invalid_assign_rejected": 400,
+    "clause:valid_assign_taken": 400,
+    "clause:key_offer_on_path": 5000,
+    "clause:key_return_value": 2000,
+    "clause:key_handled_none": 70,
+    "clause:key_unmapped_unchanged": 250,
+    "clause:arrow_moved_selectable": 150,
+    "clause:selectable_after_mutation": 1000,
+    "clause:render_focus_canvas": 2500,
+    "clause:render_focus_calls": 2500,
+    "clause:path_restored": 150,
+    "clause:path_api_agrees": 8000,
+    "clause:set_focus_path_valid": 250,
+    "clause:set_focus_path_invalid": 100,
+    "leaves_drawn_focused": 2000,
+    "mouse_presses_that_moved_focus": 200,
+    "keys_that_moved_focus": 200,
+    "kind:pile": 12000,
+    "kind:cols": 10000,
+    "kind:grid": 9000,
+    "kind:frame": 4000,
+    "kind:overlay": 2500,
+    "kind:list": 4000,
+    "reach:widget.pile.Pile.keypress": 1500,
+    "reach:widget.columns.Columns.keypress": 1400,
+    "reach:widget.grid_flow.GridFlow.keypress": 600,
+    "reach:widget.frame.Frame.keypress": 500,
+    "reach:widget.overlay.Overlay.keypress": 300,
+    "reach:widget.listbox.ListBox.keypress": 450,
+    "reach:widget.pile.Pile.mouse_event": 350,
+    "reach:widget.columns.Columns.mouse_event": 250,
+    "reach:widget.frame.Frame.mouse_event": 100,
+    "reach:widget.listbox.ListBox.mouse_event": 100,
+    "reach:widget.container.WidgetContainerMixin.set_focus_path": 500,
+    "reach:widget.grid_flow.GridFlow._set_focus_from_display_widget": 200,
 }
 RULE = (
     "seeded recipes of Pile/Columns/GridFlow/Frame/Overlay/ListBox nestings (depth <= 4, box or flow sized, optional "
@@ -606,6 +621,25 @@ class Session:
             self.bycatch.append((sig, f"{type(e).__name__}: {e}"))
             raise Crash from e
 
+    def cache_diagnosis(self, leaf):
+        """label only (never the verdict): why can a cached canvas still show an old focus?  If a widget between
+        the root and the leaf has no CanvasCache entry while the root canvas is cached, the cache has lost the
+        dependency edge along which _invalidate() would have propagated; otherwise nobody invalidated."""
+        from urwid.canvas import CanvasCache
+
+        chain = []
+        n = leaf
+        while n is not None:
+            chain.append(n)
+            n = self.parent_of(n)
+        known = CanvasCache._widgets  # noqa: SLF001
+        if self.root.w not in known:
+            return "root-not-cached"
+        for n in chain[1:]:
+            if n.base not in known or n.w not in known:
+                return "CanvasCache-lost-dependency"
+        return "not-invalidated"
+
     def op_render(self, si):
         from vmon.monitors.c08_spies import canvas_leaves
 
@@ -620,13 +654,18 @@ class Session:
         self.c("clause:render_focus_canvas")
         self.c("leaves_drawn", len(_seen))
         self.c("leaves_drawn_focused", len(focused))
+        rendered_now = {e[1] for e in self.log.events if e[0] == "render"}
         for sid in sorted(focused - onpath):
             n = next((x for x in all_nodes(self.root) if x.sid == sid), None)
             par = self.parent_of(n) if n else None
-            self.v(
-                f"C08|render|canvas-shows-focus-off-path|parent:{KIND_NAME[par.kind] if par else 'detached'}",
-                f"leaf {sid} is drawn with its focus glyph at size {self.size} but the focus path is {ch}",
-            )
+            how = "fresh-render"
+            if sid not in rendered_now:
+                how = "stale-cache:" + self.cache_diagnosis(n)
+            if how.endswith("lost-dependency"):
+                sig = f"C08|render|canvas-shows-focus-off-path|{how}"
+            else:
+                sig = f"C08|render|canvas-shows-focus-off-path|parent:{KIND_NAME[par.kind] if par else 'detached'}|{how}"
+            self.v(sig, f"leaf {sid} is drawn with its focus glyph at size {self.size} but the focus path is {ch} ({how})")
         self.c("clause:render_focus_calls")
         for e in self.log.events:
             if e[0] == "render":
